@@ -6,6 +6,7 @@ package main
 import (
 	"flag"
 	"fmt"
+	_ "github.com/blevesearch/bleve/v2/config"
 	"os"
 )
 
